@@ -12,8 +12,21 @@ def oracle_c17(seed, tier):
     return oracle_misc.check_c17(seed, tier)
 
 
+def corr_transformers(seed, tier):
+    # every pipeline that builds or carries a time value (line records, dataset summary, platform position, attitude, the
+    # attitude fix-up in whole leaders, volume directory) against its model
+    import corr_transform
+    return corr_transform.check(seed, tier)
+
+
+def oracle_line_times(seed, tier):
+    # every line of images whose line times are independent (not ascending), field by field
+    import oracle_tree
+    return oracle_tree.run(seed + 170, tier, 6 if tier == "quick" else 60, "/imagery", ("images",), "oracle:C17 per-line times of whole images")
+
+
 def checks(tier):
-    return [corr_time_decoders, oracle_c17]
+    return [corr_time_decoders, corr_transformers, oracle_c17, oracle_line_times]
 
 
 def replay(payload):
